@@ -8,7 +8,7 @@ X3 BusSynchronizer hand-shake skeleton (extra request flop, hold-while-sampled, 
 X4 common-reset wiring.  Not decided: Gray pointers and flop resolution inside Migen's AsyncFIFO, the
 time-out / round-trip ratio."""
 import ast
-from ..core import AnalysisError, norm
+from ..core import AnalysisError, norm, const_fold
 from ..fx import FX
 from .. import boolx as B
 from .. import q
@@ -236,8 +236,22 @@ def run(ctx):
     mr = [i for i in fx.insts if i.cls == "MultiReg" and q.compatible(i.pyguards, wide)]
     ok = len(mr) == 1 and [norm(x) for x in mr[0].call.args] == ["ibuffer", "obuffer", "odomain"]
     ctx.ob("X1", CDC, "BusSynchronizer", "data crosses only through MultiReg(ibuffer, obuffer, odomain)", ok, "" if ok else f"{mr}")
+    # latency budget: the request reaches the capture enable after the pulse synchroniser's 2 flops + toggle detect + ping_o; the
+    # data path must not be deeper than the default 2-flop MultiReg or a late-resolving data bit is captured one cycle early
+    nkw = [k for k in (mr[0].call.keywords if mr else []) if k.arg == "n"]
+    depth = 2
+    if nkw:
+        try:
+            depth = int(const_fold(nkw[0].value))
+        except (ValueError, TypeError):
+            depth = None
+    ok = bool(mr) and len(mr[0].call.args) <= 3 and depth is not None and depth <= 2
+    ctx.ob("X3", CDC, "BusSynchronizer", "data synchroniser not deeper than the request path allows (n <= 2)", ok,
+           "" if ok else f"MultiReg(..., n={norm(nkw[0].value) if nkw else norm(mr[0].call.args[3]) if mr and len(mr[0].call.args) > 3 else '?'}): "
+                         f"the word reaches obuffer after the capture enable; bits that resolve late are sampled from the previous word "
+                         f"(torn output)", mr[0].node if mr else 0)
     oo = [a for a in fx.find() if a.t == "self.o" and q.compatible(a.pyguards, wide)]
-    ok = len(oo) == 1 and oo[0].domain == "sync:odomain" and oo[0].v == "obuffer" and B.equivalent(oo[0].eff(), B.A("ping_o"))
+    ok = len(oo) == 1 and oo[0].domain == "sync:odomain" and oo[0].v == "obuffer" and q.EQ(oo[0], B.A("ping_o"))
     ctx.ob("X3", CDC, "BusSynchronizer", "o captured from obuffer in odomain under the registered request", ok,
            "" if ok else f"{[(a.domain, a.v, a.gtext()) for a in oo]}")
     po = fx.find(target="ping_o")
@@ -245,7 +259,7 @@ def run(ctx):
     ctx.ob("X3", CDC, "BusSynchronizer", "extra request flop: ping_o = registered _ping.o in odomain", ok,
            "" if ok else f"{[(a.domain, a.v) for a in po]}: the request could overtake the 2-flop data path")
     ib = fx.find(target="ibuffer")
-    ok = len(ib) == 1 and ib[0].domain == "sync:idomain" and ib[0].v == "self.i" and B.equivalent(ib[0].eff(), B.A("self._pong.o"))
+    ok = len(ib) == 1 and ib[0].domain == "sync:idomain" and ib[0].v == "self.i" and q.EQ(ib[0], B.A("self._pong.o"))
     ctx.ob("X3", CDC, "BusSynchronizer", "ibuffer loaded only on the acknowledge (held while sampled)", ok,
            "" if ok else f"{[(a.domain, a.v, a.gtext()) for a in ib]}")
     pi = fx.find(domain="comb", target="self._ping.i")
